@@ -315,6 +315,19 @@ def apply_action(st, act):
             nc.remove_notes(arg)
         else:
             r = nc - arg
+    elif kind == "empty":
+        nc.empty()
+        ref.notes[:] = []
+    elif kind == "from_chord":
+        nc.from_chord_shorthand(act[1]) if rot(ref, 2) == 0 else nc.from_chord(act[1])
+        ref.notes[:] = []
+        for n, o in {"NC": [], "C": [("C", 4), ("E", 4), ("G", 4)], "Am7": [("A", 4), ("C", 5), ("E", 5), ("G", 5)]}[act[1]]:
+            ref.add(n, o)
+    elif kind == "from_progression":
+        r = nc.from_progression_shorthand(act[1], "C")
+        if r is not False:
+            S.problem("from_progression_shorthand(%r, 'C') return value" % act[1], False, r)
+        ref.notes[:] = []
     else:
         raise engine.HarnessError("bad action %r" % (act,))
     sync_spelling(st)
@@ -427,6 +440,8 @@ def check_content(nc, ref, S, where=""):
 
 
 class HistorySpec(BfsSpec):
+    observe_prefix = True      # the invariant's observations are made at every step of a replayed history
+
     """bfs over operation histories.
 
     canon: the only instance state of a NoteContainer is the list `notes`; every method reads at most
@@ -472,6 +487,9 @@ class HistorySpec(BfsSpec):
         if not self.reduced:
             for i in range(len(DEL_LISTS)):
                 acts.append(["del_list", i])
+        # emptying and refilling through the constructors (what the names/consonance queries say afterwards
+        # must follow the new content)
+        acts += [["empty"], ["from_chord", "NC"], ["from_chord", "C"], ["from_chord", "Am7"], ["from_progression", "VIII"]]
         return acts
 
     def step(self, st, act, check=True):
